@@ -65,7 +65,7 @@ def customizeResponse (parent : J) (cached : CustCache) : PE (J × CustCache) :=
     let r ← PE.lift (Prog.request (.hook "customize" (.obj [("parent", parent)])))
     match r with
     | .hookOk body => pure (body, some body)
-    | .hook429 _ => PE.fail "customize hook failed: too many requests"
+    | .hook429 n => PE.throw (.tooMany n)     -- a TooManyRequestError travels up to `sync`
     | .hookErr k => PE.fail s!"customize hook failed: {k}"
     | _ => PE.fail "unexpected response"
 
